@@ -110,7 +110,23 @@ def install(E):
         E.assume_used("A-ROUND")
         if x.isint:
             return [(P, x)]
-        return [(P, Num(round_t(x.t), True))]
+        # A-ROUND: round(x) is kept as an UNINTERPRETED function RND: Real -> Int of which only what the properties use is
+        # stated: it is within 1/2 of x, and monotone (instantiated pairwise with the other applications on this path).
+        # Both are true of Python's round (ties to even); the exact tie rule is not used by any contract.  Keeping it
+        # uninterpreted lets equal arguments give equal results by congruence (the exact If/ToInt expansion of nonlinear
+        # position terms made such goals undecidable in practice).
+        f = E.uf.get("RND")
+        if f is None:
+            f = E.uf["RND"] = z3.Function("RND", RealS, IntS)
+        r = f(x.t)
+        P.assume(z3.And(2 * (z3.ToReal(r) - x.t) <= 1, 2 * (z3.ToReal(r) - x.t) >= -1))
+        seen = P.ghost.get("rnd_terms", ())
+        for y in seen[-6:]:
+            P.assume(z3.Implies(y <= x.t, f(y) <= r))
+            P.assume(z3.Implies(x.t <= y, r <= f(y)))
+        if not any(y.get_id() == x.t.get_id() for y in seen):
+            P.ghost["rnd_terms"] = seen + (x.t,)
+        return [(P, Num(r, True))]
 
     @reg("int", True)
     def _int(E, P, ctx, x, base=None):
@@ -395,6 +411,22 @@ def install(E):
             cur = E.binop(ast.Add(), cur, x, P, ctx)[0][1]
         return [(P, cur)]
 
+    @reg("any", True)
+    def _any(E, P, ctx, it):
+        items = E.iter_items(P, it)
+        if items is None:
+            raise Unsupported("any() of symbolic-length iterable")
+        ts = [E.truth(x, P) for x in items]
+        return [(P, Bool(z3.Or(*ts) if ts else z3.BoolVal(False)))]
+
+    @reg("all", True)
+    def _all(E, P, ctx, it):
+        items = E.iter_items(P, it)
+        if items is None:
+            raise Unsupported("all() of symbolic-length iterable")
+        ts = [E.truth(x, P) for x in items]
+        return [(P, Bool(z3.And(*ts) if ts else z3.BoolVal(True)))]
+
     @reg("isinstance", True)
     def _isinstance(E, P, ctx, x, c):
         def one(c):
@@ -470,6 +502,7 @@ def install(E):
     # ---- python-side list methods
     @reg("method.append")
     def _append(E, P, ctx, lst, x):
+        E.guard_global_write(lst)
         if isinstance(lst, Handle) and lst.kind == "list":
             P.put(lst, P.get(lst) + (x,))
             P.written.add("pylist")
@@ -499,6 +532,7 @@ def install(E):
 
     @reg("method.pop")
     def _pop(E, P, ctx, lst, k=None):
+        E.guard_global_write(lst)
         if isinstance(lst, Handle) and lst.kind == "list":
             xs = list(P.get(lst))
             n = -1 if k is None else E.cint(k)
@@ -570,7 +604,7 @@ def install(E):
         kj, kk = key_at(nj), key_at(nk)
         ordered = (kj >= kk) if rev else (kj <= kk)
         P.assume(z3.ForAll([j, k], z3.Implies(z3.And(0 <= j, j < k, k < n), z3.And(ordered, z3.Implies(kj == kk, pi(j) < pi(k)))),
-                           patterns=[z3.MultiPattern(nj, nk)]))
+                           patterns=[z3.MultiPattern(nj, nk)]), tag="sorted")
         E.l_set_elems(P, lst, new)
         E.assume_used("A-LIB:list.sort(key) is a stable permutation ordered by the key")
         return [(P, NONE)]
@@ -598,6 +632,7 @@ def install(E):
 
     @reg("method.update")
     def _update(E, P, ctx, d, other):
+        E.guard_global_write(d)
         if isinstance(d, Handle) and d.kind == "dict" and isinstance(other, Handle) and other.kind == "dict":
             nd = dict(P.get(d))
             nd.update(P.get(other))
